@@ -29,6 +29,9 @@ _DRIVE_LOOP = """
         invariant_except_break
             c06(scan_rest(self.reader.rest()) == scan_rest(b0.skip(8))),
             b0 == old(self).reader.rest(),
+            // what was read before the loop stays known inside it (so that a `return Ok(header)` from inside the loop
+            // verifies like `break` + trailing `Ok(header)`)
+            c04(header.version.0 == be16(b0) && header.operation_or_status == be16(b0.skip(2)) && header.request_id == be32(b0.skip(4))),
             c02(old(self).state.sizes() ==> self.state.sizes()),
             wf0 <==> (b0.len() >= 8 && old(self).state.abs() == m_init() && m_run(b0.skip(8), m_init()) is Some),
             c04(wf0 ==> m_run(self.reader.rest(), self.state.abs()) == m_run(b0.skip(8), m_init())),
